@@ -6,7 +6,6 @@
 package ristretto
 
 import (
-	"sync"
 	"time"
 )
 
@@ -153,7 +152,7 @@ func (sm *shardedMap[V]) Clear(onEvict func(item *Item[V])) {
 }
 
 type lockedMap[V any] struct {
-	sync.RWMutex
+	verifRWMutex
 	data         map[uint64]storeItem[V]
 	em           *expirationMap[V]
 	shouldUpdate updateFn[V]
